@@ -218,7 +218,7 @@ def jug_namespace():
     ns = {n: TaskGenerator(f) for n, f in RAW.items()}
     ns.update(dict(Task=Task, iteratetask=iteratetask, jmap=jmap, mapreduce=mapreduce, currymap=currymap, jreduce=jreduce,
                    identity=identity, CustomHash=CustomHash, NoHash=NoHash, hash_one=hash_one, return_tuple=return_tuple,
-                   dbl=dbl, wrap=wrap, cat=cat, mul=mul, Pt=Pt, OD=OD, LL=LL, same=TaskGenerator(same),
+                   dbl=dbl, wrap=wrap, cat=cat, mul=mul, Pt=Pt, OD=OD, LL=LL, same=TaskGenerator(same), np=__import__('numpy'),
                    pair2=return_tuple(3)(TaskGenerator(RAW['pair']))))
     return ns
 
@@ -242,7 +242,7 @@ def plain_namespace():
         return functools.reduce(r, list(xs)) if xs else []
     ns.update(dict(Task=lambda f, *a, **k: f(*a, **k), iteratetask=lambda t, n: [t[i] for i in range(n)], jmap=jmap, mapreduce=mapreduce,
                    currymap=currymap, jreduce=jreduce, identity=lambda x: x, CustomHash=lambda x, h: x, NoHash=lambda x: x,
-                   hash_one=lambda x: b'', return_tuple=lambda n: (lambda f: f), dbl=dbl, wrap=wrap, cat=cat, mul=mul, pair2=RAW['pair'], Pt=Pt, OD=OD, LL=LL, same=same))
+                   hash_one=lambda x: b'', return_tuple=lambda n: (lambda f: f), dbl=dbl, wrap=wrap, cat=cat, mul=mul, pair2=RAW['pair'], Pt=Pt, OD=OD, LL=LL, same=same, np=__import__('numpy')))
     return ns
 
 
